@@ -266,7 +266,7 @@ R"(
         return ctx_manager->get(t).underlying_type;
     }
 
-    static std::string make_entry_cursor_constructor(
+    std::string make_entry_cursor_constructor(
         const sbe::level_members& members,
         const std::string_view class_name,
         const std::string_view block_length_type,
@@ -275,9 +275,10 @@ R"(
         // for empty group entries we generate a special cursor constructor to
         // advance cursor to `block_length` because there are no other fields
         // to do this. Default constructor is declared explicitly because old
-        // compilers don't support inheriting it from the base class.
-        if(members.fields.empty() && members.groups.empty()
-           && members.data.empty())
+        // compilers don't support inheriting it from the base class. Constant
+        // fields don't count because they have no cursor accessors.
+        if(get_non_const_fields(members.fields).empty()
+           && members.groups.empty() && members.data.empty())
         {
             return fmt::format(
                 // clang-format off
